@@ -587,13 +587,13 @@ pub fn marshal_rtcp_packets(packets: &[RtcpPacket]) -> RtpResult<Vec<u8>> {
                 &mut out,
                 sdes.chunks.len() as u8,
                 RTCP_SDES,
-                build_sdes_body(sdes),
+                build_sdes_body(sdes)?,
             ),
             RtcpPacket::Goodbye(bye) => write_rtcp_packet(
                 &mut out,
                 bye.sources.len() as u8,
                 RTCP_BYE,
-                build_goodbye_body(bye),
+                build_goodbye_body(bye)?,
             ),
             RtcpPacket::PictureLossIndication(pli) => write_rtcp_packet(
                 &mut out,
@@ -914,6 +914,9 @@ fn parse_twcc_body(body: &[u8]) -> RtpResult<TransportWideCc> {
 }
 
 fn build_sender_report_body(sr: &SenderReport) -> RtpResult<Vec<u8>> {
+    if sr.report_blocks.len() > 31 {
+        return Err(RtpError::InvalidRtcp("too many report blocks"));
+    }
     let mut body = Vec::with_capacity(24 + sr.report_blocks.len() * 24);
     body.extend_from_slice(&sr.sender_ssrc.to_be_bytes());
     body.extend_from_slice(&sr.ntp_most.to_be_bytes());
@@ -928,6 +931,9 @@ fn build_sender_report_body(sr: &SenderReport) -> RtpResult<Vec<u8>> {
 }
 
 fn build_receiver_report_body(rr: &ReceiverReport) -> RtpResult<Vec<u8>> {
+    if rr.report_blocks.len() > 31 {
+        return Err(RtpError::InvalidRtcp("too many report blocks"));
+    }
     let mut body = Vec::with_capacity(4 + rr.report_blocks.len() * 24);
     body.extend_from_slice(&rr.sender_ssrc.to_be_bytes());
     for block in &rr.report_blocks {
@@ -936,7 +942,10 @@ fn build_receiver_report_body(rr: &ReceiverReport) -> RtpResult<Vec<u8>> {
     Ok(body)
 }
 
-fn build_sdes_body(sdes: &SourceDescription) -> Vec<u8> {
+fn build_sdes_body(sdes: &SourceDescription) -> RtpResult<Vec<u8>> {
+    if sdes.chunks.len() > 31 {
+        return Err(RtpError::InvalidRtcp("too many SDES chunks"));
+    }
     let mut body = Vec::new();
     for chunk in &sdes.chunks {
         body.extend_from_slice(&chunk.ssrc.to_be_bytes());
@@ -950,10 +959,13 @@ fn build_sdes_body(sdes: &SourceDescription) -> Vec<u8> {
             body.push(0);
         }
     }
-    body
+    Ok(body)
 }
 
-fn build_goodbye_body(bye: &Goodbye) -> Vec<u8> {
+fn build_goodbye_body(bye: &Goodbye) -> RtpResult<Vec<u8>> {
+    if bye.sources.len() > 31 {
+        return Err(RtpError::InvalidRtcp("too many BYE sources"));
+    }
     let mut body = Vec::new();
     for ssrc in &bye.sources {
         body.extend_from_slice(&ssrc.to_be_bytes());
@@ -965,7 +977,7 @@ fn build_goodbye_body(bye: &Goodbye) -> Vec<u8> {
         body.extend_from_slice(&bytes[..len as usize]);
         // Padding to 32-bit boundary is handled by write_rtcp_packet
     }
-    body
+    Ok(body)
 }
 
 fn build_report_block(block: &ReportBlock) -> [u8; 24] {
